@@ -437,9 +437,30 @@ def run_case(case):
             for i in order:
                 r1_ = frr[i].get_R1()
                 sites_by_id.setdefault(i, {})[label] = r1_.get_tag('DS') if r1_.has_tag('DS') else None
+        # grouping with a radius is a greedy chain: which fragments end up together is only well defined when everything that can chain with the
+        # family (same cell, UMI, strand and contig, linked by steps of <= 5) lies within 5 bases - a longer chain is cut at a place that depends
+        # on the direction it is walked in, and the two orientations then legitimately differ
+        def _chain_key(j):
+            t_ = truths[j]
+            return (t_['sample'], t_['umi'], t_['reverse'], t_['contig'])
+        by_chain = defaultdict(list)
+        for j, t_ in truths.items():
+            if t_.get('site') is not None:
+                by_chain[_chain_key(j)].append(t_['site'])
         for i, fid in family_of.items():
             d_ = sites_by_id.get(i, {})
             if d_.get('original') is None or d_.get('mirror') is None:
+                continue
+            comp = {truths[i]['site']}
+            grew = True
+            while grew:
+                grew = False
+                for s_ in by_chain[_chain_key(i)]:
+                    if s_ not in comp and any(abs(s_ - c_) <= 5 for c_ in comp):
+                        comp.add(s_)
+                        grew = True
+            if max(comp) - min(comp) > 5:
+                acc.count('molecule:family_in_a_chain_longer_than_the_radius_skipped')
                 continue
             acc.count('molecule:family_sites_compared')
             L_ = lens[truths[i]['contig']]
